@@ -99,8 +99,24 @@ fn roundtrip<const N: usize>(values: &[[u8; N]], output: &mut [[u8; N]])
     }
 }
 
-// docs/binary.md "Integer transformations" for i32, second back end (bit-vector reasoning)
+// docs/binary.md "Integer transformations": read as an unsigned number the stored word is 2x for
+// x >= 0 and -2x-1 for x < 0. Second back end for U1.zz32.spec (bit-vector reasoning); the body
+// expression between the markers is the body of core.rs `transform_i32`, copied on every run.
 pub open spec fn zz(v: int) -> int { if v >= 0 { 2 * v } else { -2 * v - 1 } }
+
+fn transform_i32_region(value: i32) -> (r: i32)
+    ensures (r as u32) as int == zz(value as int),
+{
+// BEGIN EXTRACTED transform_i32
+    let r =
+@@ZZ32@@
+    ;
+// END EXTRACTED
+    // the document's formula, as bit-vector facts
+    assert((((value << 1) ^ (value >> 31)) as u32) == (if value >= 0 { 2 * (value as u32) } else { (!(value as u32)) * 2 + 1 }) as u32) by (bit_vector);
+    assert(value < 0 ==> (!(value as u32)) as int == -(value as int) - 1) by (bit_vector);
+    r
+}
 
 } // verus!
 fn main() {}
